@@ -244,7 +244,10 @@ def gen_history(rng, fam):
             version += 1
     ops.append({'op': 'read', 'plan': [], 'order': list(range(ntask)),
                 'extra_missing_name': False})
-    return {'kind': 'envhist', 'tasks': tasks, 'ops': ops}
+    return {'kind': 'envhist', 'tasks': tasks, 'ops': ops,
+            # a file system whose time stamps do not tell two versions of a
+            # file apart (FAT: 2 s; a restore that keeps the time stamps)
+            'frozen_mtime': rng.random() < 0.3}
 
 
 # --------------------------------------------------------------------------
@@ -522,6 +525,13 @@ def _run_history(scn, sim, res, root):
             _whole_roundtrip(scn, sim, res, opno, op, root)
         if any(v[1] != ELSEWHERE_SIG for v in res.violations):
             break
+        if scn.get('frozen_mtime'):
+            for i in range(len(tasks)):
+                if os.path.isfile(path_of(i)):
+                    os.utime(path_of(i), (1.0e9, 1.0e9))
+            whole = os.path.join(root, 'whole.env')
+            if os.path.isfile(whole):
+                os.utime(whole, (1.0e9, 1.0e9))
     if any(op.get('plan') for op in scn['ops']):
         sim.nontrivial = True
 
